@@ -138,6 +138,8 @@ class _KillState:
     armed: int | None = None     # kill when this many commits have completed
     count = 0                    # durable commits since the last arm/reset
     dead = False
+    hook_at: int | None = None   # run hook_fn once, right after this many commits of the current delivery have completed
+    hook_fn = None
 
 
 def install_kill_shim() -> None:
@@ -155,6 +157,11 @@ def install_kill_shim() -> None:
                     _KillState.dead = True
                     raise Kill()
                 _KillState.count += 1
+                if _KillState.hook_fn is not None and _KillState.count == _KillState.hook_at:
+                    r = super().commit()
+                    fn, _KillState.hook_fn = _KillState.hook_fn, None
+                    fn()
+                    return r
             return super().commit()
 
     class Shim:
@@ -473,6 +480,62 @@ class Engine:
                 del self.world.exec_count[key]
         self.restart()
         return outcome, n
+
+    def sweep_as_other_worker(self) -> None:
+        """A recovery sweep by ANOTHER worker: own store / queue objects on their own connection (the connection manager is
+        per thread), exactly what a second process sees - the committed rows only."""
+        import threading
+
+        err: list[BaseException] = []
+
+        def body() -> None:
+            try:
+                from datetime import timedelta
+
+                from stabilize import SqliteQueue, SqliteWorkflowStore
+                from stabilize.recovery import WorkflowRecovery
+
+                store = SqliteWorkflowStore(self.url, create_tables=False)
+                queue = SqliteQueue(self.url, lock_duration=timedelta(hours=1))
+                WorkflowRecovery(store=store, queue=queue).recover_pending_workflows()
+            except BaseException as e:  # noqa: BLE001
+                err.append(e)
+
+        th = threading.Thread(target=body)
+        th.start()
+        th.join()
+        if err:
+            raise RuntimeError(f"interposed sweep failed: {err[0]!r}")
+
+    def interpose(self, row_id: int, k: int) -> tuple[str, int]:
+        """Deliver `row_id` (with ack) while another worker's recovery sweep runs right after the k-th durable commit of
+        this delivery (k = 0: after the poll's claim, before the handler's first commit).  No crash is involved.
+        Returns (outcome, commits of the delivery); the sweep did not run when the delivery has fewer than k commits."""
+        m = self._load(row_id)
+        if m is None:
+            return "no-row", 0
+        _KillState.count = 0
+        _KillState.hook_fn = None
+        ran = []
+        if k == 0:
+            self.sweep_as_other_worker()
+            ran.append(1)
+        else:
+            _KillState.hook_at = k
+            _KillState.hook_fn = lambda: (ran.append(1), self.sweep_as_other_worker())
+        try:
+            self.processor._handle_message(m)
+            self.queue.ack(m)
+            outcome = "ok"
+        except Exception as e:
+            from datetime import timedelta
+
+            m.set_error_context(e)
+            self.queue.reschedule(m, timedelta(0))
+            outcome = "raised:" + type(e).__name__
+        finally:
+            _KillState.hook_fn = None
+        return (outcome if ran else outcome + ":no-sweep"), _KillState.count
 
     def count_commits(self, fn) -> int:  # noqa: ANN001
         _KillState.count = 0
